@@ -11,6 +11,7 @@ import (
 )
 
 func (c *conn) sendLoop(ctx async.Context) status.Status {
+	var wait <-chan struct{}
 	for {
 		// Write pending messages
 		b, ok, st := c.writeq.Read()
@@ -29,12 +30,19 @@ func (c *conn) sendLoop(ctx async.Context) status.Status {
 			return st
 		}
 
+		// Arm the wait and read again, a message may have been written in between
+		if wait == nil {
+			wait = c.writeq.ReadWait()
+			continue
+		}
+
 		// Wait for more messages
 		select {
 		case <-ctx.Wait():
 			return ctx.Status()
-		case <-c.writeq.ReadWait():
+		case <-wait:
 		}
+		wait = nil
 	}
 }
 
